@@ -26,6 +26,14 @@ pub trait Suite: RandomizedCiphersuite {
     const NAME: &'static str;
     const IS_TOY: bool = false;
     const IS_TAPROOT: bool = false;
+    /// scalar encoding is little-endian
+    const LE: bool = false;
+
+    /// An independent verifier for this suite's single-signer scheme, if one is
+    /// available offline (ed25519-dalek verify_strict, libsecp256k1 BIP-340).
+    fn ext_verify(_vk: &[u8], _msg: &[u8], _sig: &[u8]) -> Option<bool> {
+        None
+    }
 
     fn sj(s: &Scalar<Self>) -> Value {
         Value::String(hex(<<Self::Group as Group>::Field as Field>::serialize(s).as_ref()))
@@ -84,15 +92,28 @@ impl Suite for Toy {
 
 impl Suite for frost_ed25519::Ed25519Sha512 {
     const NAME: &'static str = "ed25519";
+    const LE: bool = true;
+    fn ext_verify(vk: &[u8], msg: &[u8], sig: &[u8]) -> Option<bool> {
+        let vk: [u8; 32] = vk.try_into().ok()?;
+        let sig: [u8; 64] = sig.try_into().ok()?;
+        let vk = match ed25519_dalek::VerifyingKey::from_bytes(&vk) {
+            Ok(v) => v,
+            Err(_) => return Some(false),
+        };
+        let sig = ed25519_dalek::Signature::from_bytes(&sig);
+        Some(vk.verify_strict(msg, &sig).is_ok())
+    }
 }
 impl Suite for frost_ed448::Ed448Shake256 {
     const NAME: &'static str = "ed448";
+    const LE: bool = true;
 }
 impl Suite for frost_p256::P256Sha256 {
     const NAME: &'static str = "p256";
 }
 impl Suite for frost_ristretto255::Ristretto255Sha512 {
     const NAME: &'static str = "ristretto255";
+    const LE: bool = true;
 }
 impl Suite for frost_secp256k1::Secp256K1Sha256 {
     const NAME: &'static str = "secp256k1";
@@ -100,6 +121,26 @@ impl Suite for frost_secp256k1::Secp256K1Sha256 {
 impl Suite for frost_secp256k1_tr::Secp256K1Sha256TR {
     const NAME: &'static str = "secp256k1-tr";
     const IS_TAPROOT: bool = true;
+    fn ext_verify(vk: &[u8], msg: &[u8], sig: &[u8]) -> Option<bool> {
+        bip340_verify(vk, msg, sig)
+    }
+}
+
+/// libsecp256k1 BIP-340 verification under the x-only form of a 33-byte compressed key.
+pub fn bip340_verify(vk: &[u8], msg: &[u8], sig: &[u8]) -> Option<bool> {
+    if vk.len() != 33 {
+        return None;
+    }
+    let secp = secp256k1::Secp256k1::verification_only();
+    let xonly = match secp256k1::XOnlyPublicKey::from_slice(&vk[1..33]) {
+        Ok(k) => k,
+        Err(_) => return Some(false),
+    };
+    let sig = match secp256k1::schnorr::Signature::from_slice(sig) {
+        Ok(s) => s,
+        Err(_) => return Some(false),
+    };
+    Some(secp.verify_schnorr(&sig, msg, &xonly).is_ok())
 }
 
 pub const REAL_SUITES: &[&str] = &["ed25519", "ed448", "p256", "ristretto255", "secp256k1", "secp256k1-tr"];
